@@ -1,11 +1,12 @@
 \* Edge cover for the replay on the real FSM (quick tier): <= 2 entries after the
-\* CreateSession, timestamps {0, 6}; EmitEdge prints the history of every
-\* generated transition (8,532 edges, 4,167 states).
+\* CreateSession, timestamps {0, 6}, compaction time 64 (ts 0 old, ts 6 young; a log
+\* of ts-0 entries is folded completely); EmitEdge prints the history of every
+\* generated transition (2,326 edges, 1,279 states).
 SPECIFICATION Spec
 CONSTANTS
     Alphabet <- AlphaBook
     TS = {0, 6}
-    Nows = {64, 70}
+    Nows = {64}
     Prelude <- PreludeSess
     DefaultExp = 60
     Grace = 1
